@@ -541,7 +541,8 @@ PROPS["C01"]["level_text"] += (
     "effect is asked for each frame exactly once in slices <= ibs (C01_system_each_component_once)")
 PROPS["C01"]["level_note"] += (
     "; the whole-system twin covers static sounds, the eight effects, track trees/sends, clocks, LFO/tweener modulators and rate "
-    "changes - NOT streaming sounds, spatial tracks/listeners or exhausted capacities (those stay with suite system); real components' "
+    "changes, and (since w-sysspat) listeners and spatial sub-tracks with listener-distance-mapped parameters (Props/C15_system.lean) - NOT "
+    "streaming sounds or exhausted capacities (those stay with suite system); real components' "
     "chunk-freedom is proved for depth-0 effects at rest only (C01_real_components_chunk_free_partial), the buffer-size invariance of "
     "whole real scenes is checked on kira itself by the bit-exact oracle buffer_size_invariance")
 
@@ -565,7 +566,29 @@ PROPS["C11"]["level_note"] += (
     "(no modulator, no ticking clock in the premise), paused->playing transitions, streaming sounds, spatial tracks")
 PROPS["C11"]["assumptions"] += [
     "real scenes: every sound has settled volume/rate/panning/fade, immediate start, is paused/stopped or playing inside its documented "
-    "domain (slice inside the data, valid loop) with loop fuel >= sampleRate*|rate|*dt + 1; every effect at rest, reverb initialised "
+    "domain (any slice; loop region absent or non-empty and inside the sound) with loop fuel >= sampleRate*|rate|*dt + 1; every effect at rest, reverb initialised "
     "at >= 196 Hz, delay lines non-empty with scratch >= internal buffer size at every nesting depth, no latched panic; "
-    "no modulators, no ticking clock; no command / new resource / dropped handle pending",
+    "no modulators, no ticking clock, listeners (if any) at rest with empty command slots, NO spatial track (Mixer.Settled demands "
+    "spatial = none at every depth; with a moving listener the per-chunk pose interpolation makes buffer-size invariance false "
+    "bit-wise, notes/C15.md); no command / new resource / dropped handle pending",
 ]
+
+# --- spatial tracks and listeners INSIDE the whole-system twin: suite `syscore` now drives listeners
+# (add / drop / tweened or modulator-linked position and orientation) and spatial sub-tracks (nested, with effects,
+# sends, sounds, `Value::FromListenerDistance` parameters) through the public API next to everything else, and the
+# twin's spatial hook is the real spatial computation of Model/Spatial.lean; Props/C15_system.lean lifts the per-track
+# C15 results to the whole-system model.
+PROPS["C15"]["suites"] += [{"name": "syscore", "quick": 400, "thorough": 8000}]
+PROPS["C15"]["level_text"] += (
+    " INSIDE THE WHOLE SYSTEM (suite syscore + Props/C15_system.lean): the whole-system model's spatial hook is this "
+    "very computation and listeners live in its environment (modulators -> clocks -> listeners -> mixer); complete scenes "
+    "mixing spatial and plain tracks, static sounds, effects, sends, clocks and modulators, with listener-distance-mapped "
+    "volumes / effect / sound parameters, nested spatial tracks and dropped listeners are bit-exact against kira through "
+    "the public API; proved for that model: a spatial track whose listener is absent (dropped or never added) outputs "
+    "exact silence, adds nothing to its parent's bus and feeds no send (C15_system_no_listener_silent, "
+    "C15_system_dropped_listener_absent); with the listener present its signal is track gain x mono mix x distance "
+    "amplitude x ear gain of its subtree's signal, frame by frame (C15_system_level_product); every track at any depth "
+    "looks listeners up in the environment's arena and the innermost spatial track's distance wins "
+    "(C15_system_listener_lookup); in every reachable state (all scenes, all histories) the tracks are clean, so a "
+    "top-level spatial track whose listener was dropped is exactly silent in the next callback "
+    "(C15_system_reachable_dropped_listener_silent)")
